@@ -57,7 +57,8 @@ ASSUMPTIONS = [
 ]
 PROFILE = gen.profile(
     len=(5, 28), depth=4, markers=True, choose_conds=1.0, choose_counts=0.7,
-    nested_defs=0.12, trace_loops=0, trace_vars=0, zero_cycle=True,
+    nested_defs=0.12, const_conds=0.12, trace_loops=0, trace_vars=0,
+    zero_cycle=True,
     w={'if': 16, 'repeat': 14, 'break': 8, 'call': 12, 'routine': 7,
        'return': 8, 'print': 1, 'assign': 2, 'setreg': 1, 'action': 1.5,
        'get': 0.2, 'units': 0.6, 'time': 0, 'time_at': 0, 'wait': 0.2,
